@@ -12,6 +12,8 @@ def run(rep: Report, repo: Repo, tier: str) -> None:
     fsrules.rule_no_location_in_content(rep, repo, "C12-R1", only_names=True)
     pathterms.rule_title_terms(rep, repo, "C12-R1b", "C12-R2", "C12-R3")
     rule_prefix_default(rep, repo, "C12-R3d")
+    # the default prefix of one input must not leak into the next input of the same run
+    fsrules.rule_isolation(rep, repo, "C12-R3i")
     writer_rules.rule_heading(rep, repo, "C12-R4")
     misc_rules.rule_document_order(rep, repo, "C12-R5o", "C12-R5")
     atn_rules.rule_doc_tokens(rep, repo, "C12-R5t")
@@ -58,9 +60,12 @@ def rule_module_callback(rep: Report, repo: Repo, rule: str) -> None:
             if e[0] == "push" and e[1] == lm.entries:
                 ob = st.obj(e[2])
                 nm, doc = show(ob["fields"]["name"]), show(ob["fields"]["doc"])
-                rep.check("[0].replace('@module', '').strip()" in nm and "clean_doc_lines" in nm, rule,
-                          f"cminx.aggregator:{lm.cls}.enterDocumented_module", f"name = {nm[:90]}",
-                          "the module name is not the first doccomment line without '@module'")
+                base_ok = "clean_doc_lines" in nm and ".split('\\n')[0]" in nm and "Module_docstring().getText()" in nm
+                removes = "'@module'" in nm or "@module" in nm
+                trims = any(x in nm for x in (".strip(", "re.sub(", "re.match(", ".lstrip(", ".split("))
+                rep.check(base_ok and removes and trims, rule,
+                          f"cminx.aggregator:{lm.cls}.enterDocumented_module", f"name = {nm[:100]}",
+                          "the module name is not the first cleaned doccomment line with '@module' removed and surrounding blanks trimmed")
                 rep.check("'\\n'.join(" in doc and "[1:]" in doc and "clean_doc_lines" in doc, rule,
                           f"cminx.aggregator:{lm.cls}.enterDocumented_module", f"doc = {doc[:90]}",
                           "the module body is not the remaining doccomment lines")
